@@ -81,6 +81,9 @@ def _extra_body(e, kind):
         return BT_CUSTOM, struct.pack(e + "I", 32473) + _pad(b"c" * n)
     if kind == "unknown":
         return 0x00000ABC, _pad(b"unknown block body")
+    if kind == "idb2":
+        # a SECOND interface (no packet uses it) whose timestamps are in milliseconds with an offset
+        return BT_IDB, struct.pack(e + "HHI", 1, 0, 0) + _opts(e, [(9, bytes([3])), (14, struct.pack(e + "q", 777))])
     if kind == "spb":
         frame = b"\xff" * 6 + b"\x02" * 6 + b"\x08\x06" + b"\x00" * 28   # an ARP-ish frame
         return BT_SPB, struct.pack(e + "I", len(frame)) + _pad(frame)
